@@ -137,6 +137,9 @@ def run(ck, facts):
     ck.rule("R4", "producer/consumer agreement for optional template data: nanobind computes parameter declarations for every type kind whose templates unwrap them")
     ck.not_decided += ["index/slice panics and arithmetic overflow", "panics selected by identifier values rather than shapes (reserved type names, duplicate file names)"]
 
+    # the assertions of js::layout::struct_field_info are triaged `internal-invariant` on the strength of C08.R3: that rule is part of this check
+    import c08
+    c08.run(C.SubCheck(ck, "R1", "", ["R3"], key_re=r"^struct_field_info/"), facts)
     inv = inventory([tool, core], adts)
     if os.environ.get("VERIF_DUMP_PANICS"):
         for e in inv:
@@ -439,7 +442,7 @@ def run(ck, facts):
                   "generate_method supplies an allocator for %s of %s, but the conversion unwraps one for %s: an accepted parameter (e.g. Option<u8> under js.abi = \"spec\") reaches "
                   "`Expected an allocator to be specified`" % (prod, "param.ty" if scrut_ok else "a derived type (not param.ty itself)", need), C.loc(gm))
     import c04
-    sub = C.SubCheck(ck, "R5", "", ["R6"])
+    sub = C.SubCheck(ck, "R5", "", ["R6"], key_re=r"lifetime-env|def-lifetime-in-user-env|matcher-selftest|^floor|loop-pattern")   # the index-branding part of C04.R6 (an index into the wrong environment panics)
     c04.run(sub, facts)
 
 
